@@ -19,7 +19,7 @@ def ramAccess (m : Machine) : Bool :=
 /-- **One wait per RAM access, none for I/O**: an executed micro-step raises the wait flag iff it
 accesses RAM (a word with both BUSEN and BUSWR still raises a single flag). -/
 theorem wait_iff_ram (m : Machine) : (exec m).wait = ramAccess m := by
-  simp only [exec, Core.execWord, ramAccess, pre, C.waitTop]
+  simp only [exec, Core.execWord, ramAccess, pre, C.waitTopR, C.waitTopW]
   cases (word (Core.updateWord (Core.updateIr m.core.applyPending)).addr).busen <;>
     cases (word (Core.updateWord (Core.updateIr m.core.applyPending)).addr).buswr <;> simp <;> rfl
 
